@@ -29,7 +29,7 @@ package mcp
 //@   final[C16] supportedVersions, defaultProtocolVersion
 //@   final[C06,C20] sessionStates
 //@   invariant self.sessionStates != nil
-//@   invariant[C16 default-version-is-supported] inslice(self.supportedVersions, self.defaultProtocolVersion)
+//@   invariant[C16,C14 default-version-is-supported] inslice(self.supportedVersions, self.defaultProtocolVersion)
 //@
 //@ func lifecycleManager.withProtocolVersion
 //@   requires[C16] inslice(m.supportedVersions, version)
@@ -38,11 +38,11 @@ package mcp
 //@
 //@ func lifecycleManager.selectSupportedVersion
 //@   pure
-//@   ensures[C16 requested-version-when-supported] inslice(m.supportedVersions, protocolVersion) ==> result == protocolVersion
-//@   ensures[C16 default-version-otherwise] !inslice(m.supportedVersions, protocolVersion) ==> result == m.defaultProtocolVersion
-//@   ensures[C16 never-an-unsupported-version] inslice(m.supportedVersions, result)
-//@   loop 1 invariant[C16] forall j int :: 0 <= j && j <= rangeindex ==> m.supportedVersions[j] != protocolVersion
-//@   loop 1 invariant[C16] 0 - 1 <= rangeindex && rangeindex < len(m.supportedVersions)
+//@   ensures[C16,C14 requested-version-when-supported] inslice(m.supportedVersions, protocolVersion) ==> result == protocolVersion
+//@   ensures[C16,C14 default-version-otherwise] !inslice(m.supportedVersions, protocolVersion) ==> result == m.defaultProtocolVersion
+//@   ensures[C16,C14 never-an-unsupported-version] inslice(m.supportedVersions, result)
+//@   loop 1 invariant[C16,C14] forall j int :: 0 <= j && j <= rangeindex ==> m.supportedVersions[j] != protocolVersion
+//@   loop 1 invariant[C16,C14] 0 - 1 <= rangeindex && rangeindex < len(m.supportedVersions)
 //@
 //@ type promptManager
 //@   ctor newPromptManager
@@ -79,7 +79,7 @@ package mcp
 //@
 //@ func lifecycleManager.buildInitializeResponse
 //@   pure
-//@   ensures[C16 echoes-negotiated-version] result.ProtocolVersion == protocolVersion
+//@   ensures[C16,C14 echoes-negotiated-version] result.ProtocolVersion == protocolVersion
 //@   ensures[C16 configured-name-and-version] result.ServerInfo.Name == m.serverInfo.Name && result.ServerInfo.Version == m.serverInfo.Version
 //@   ensures[C16] (result.Capabilities.Tools != nil) <==> istype(m.capabilities["tools"], map[string]interface{})
 //@   ensures[C16] (result.Capabilities.Resources != nil) <==> istype(m.capabilities["resources"], map[string]interface{})
@@ -89,8 +89,8 @@ package mcp
 //@
 //@ func lifecycleManager.handleInitialize
 //@   ensures[C16] result1 == nil
-//@   ensures[C16 answers-with-a-supported-version] initParamsOK(req) ==> istype(result, InitializeResult) && inslice(m.supportedVersions, result.(InitializeResult).ProtocolVersion)
-//@   ensures[C16 answers-with-the-requested-version-when-supported] initParamsOK(req) && inslice(m.supportedVersions, req.Params.(map[string]interface{})["protocolVersion"].(string)) ==> result.(InitializeResult).ProtocolVersion == req.Params.(map[string]interface{})["protocolVersion"].(string)
+//@   ensures[C16,C14 answers-with-a-supported-version] initParamsOK(req) ==> istype(result, InitializeResult) && inslice(m.supportedVersions, result.(InitializeResult).ProtocolVersion)
+//@   ensures[C16,C14 answers-with-the-requested-version-when-supported] initParamsOK(req) && inslice(m.supportedVersions, req.Params.(map[string]interface{})["protocolVersion"].(string)) ==> result.(InitializeResult).ProtocolVersion == req.Params.(map[string]interface{})["protocolVersion"].(string)
 //@   ensures[C16 answers-with-configured-identity] initParamsOK(req) ==> result.(InitializeResult).ServerInfo.Name == m.serverInfo.Name && result.(InitializeResult).ServerInfo.Version == m.serverInfo.Version
 //@   ensures[C16 tools-capability-always-advertised] initParamsOK(req) ==> result.(InitializeResult).Capabilities.Tools != nil
 //@   ensures[C16 prompts-capability-iff-registered] initParamsOK(req) ==> ((result.(InitializeResult).Capabilities.Prompts != nil) <==> (m.promptManager != nil && len(m.promptManager.prompts) > 0))
@@ -110,6 +110,7 @@ package mcp
 //@ func transport.sendRequest
 //@   modifies *
 //@   ensures netops == old(netops) + 1
+//@   ensures ret1 == nil ==> ret != nil
 //@ func transport.sendNotification
 //@   modifies *
 //@   ensures netops == old(netops) + 1
@@ -164,6 +165,7 @@ package mcp
 //@   trusted
 //@   modifies *
 //@   ensures netops == old(netops) + 1
+//@   ensures ret1 == nil ==> ret != nil
 //@ func stdioClientTransport.sendNotification
 //@   trusted
 //@   modifies *
@@ -494,7 +496,7 @@ package mcp
 //@ func httpServerHandler.handlePostRequest
 //@   requires status(w) == 0
 //@   before call (net/http.Header).Set#1 assert[C04 session-header-only-in-stateful-mode] !h.isStateless
-//@   modifies *, status(w), hval, handled
+//@   modifies *, status(w), hval, handled, lastres, lasterr
 //@   ensures[C03,C06] status(w) != 0
 //@ func httpServerHandler.handlePostNotification
 //@   requires status(w) == 0
@@ -732,3 +734,110 @@ package mcp
 //@   pure
 //@   ensures[C13] !isnil(result) && ctxparent(result) == ctx
 //@   ensures[C13] forall k interface{} :: k != box(serverContextKey) ==> ctxval(result, k) == ctxval(ctx, k)
+
+// ---------------------------------------------------------------------------
+// C14 — all transports answer alike: both dispatchers are proved against one
+// table entryOf(method) -> manager entry point (one ghost call counter per
+// entry point), and the three wrappers map (result, error) to the same envelope
+// classes.  C15/C03: a handler error never leads to a success response.
+
+//@ ghost stable c_init int
+//@ ghost stable c_tlist int
+//@ ghost stable c_tcall int
+//@ ghost stable c_plist int
+//@ ghost stable c_pget int
+//@ ghost stable c_rlist int
+//@ ghost stable c_rread int
+//@ ghost stable lasterr error
+//@ ghost stable lastres interface{}
+//@
+//@ fun entryOf(m string) int = m == "initialize" ? 1 : (m == "tools/list" ? 2 : (m == "tools/call" ? 3 : (m == "prompts/list" ? 4 : (m == "prompts/get" ? 5 : (m == "resources/list" ? 6 : (m == "resources/read" ? 7 : (m == "ping" ? 8 : 0)))))))
+//@ pred onlyEntry(k int) = c_init == old(c_init) + (k == 1 ? 1 : 0) && c_tlist == old(c_tlist) + (k == 2 ? 1 : 0) && c_tcall == old(c_tcall) + (k == 3 ? 1 : 0) && c_plist == old(c_plist) + (k == 4 ? 1 : 0) && c_pget == old(c_pget) + (k == 5 ? 1 : 0) && c_rlist == old(c_rlist) + (k == 6 ? 1 : 0) && c_rread == old(c_rread) + (k == 7 ? 1 : 0)
+//@
+//@ func lifecycleManager.handleInitialize
+//@   counted c_init
+//@ func toolManager.handleListTools
+//@   counted c_tlist
+//@ func toolManager.handleCallTool
+//@   counted c_tcall
+//@   modifies *, c_tcall
+//@ func promptManager.handleListPrompts
+//@   counted c_plist
+//@   modifies *, c_plist
+//@ func promptManager.handleGetPrompt
+//@   counted c_pget
+//@   modifies *, c_pget
+//@ func resourceManager.handleListResources
+//@   counted c_rlist
+//@   modifies *, c_rlist
+//@ func resourceManager.handleReadResource
+//@   counted c_rread
+//@   modifies *, c_rread
+//@
+//@ func mcpHandler.dispatchRequest
+//@   ensures[C14 shared-methods-reach-the-same-manager-entry-point-once] entryOf(old(req.Method)) != 0 ==> onlyEntry(entryOf(old(req.Method)))
+//@   ensures[C14 unserved-methods-reach-no-entry-point] !served(old(req.Method)) ==> onlyEntry(0)
+//@
+//@ func stdioServerInternal.HandleRequest
+//@   before call handleInitialize#1 assert[C14 same-entry-point-as-the-http-dispatcher] entryOf(request.Method) == 1
+//@   before call handleListTools#1 assert[C14 same-entry-point-as-the-http-dispatcher] entryOf(request.Method) == 2
+//@   before call handleCallTool#1 assert[C14 same-entry-point-as-the-http-dispatcher] entryOf(request.Method) == 3
+//@   before call handleListPrompts#1 assert[C14 same-entry-point-as-the-http-dispatcher] entryOf(request.Method) == 4
+//@   before call handleGetPrompt#1 assert[C14 same-entry-point-as-the-http-dispatcher] entryOf(request.Method) == 5
+//@   before call handleListResources#1 assert[C14 same-entry-point-as-the-http-dispatcher] entryOf(request.Method) == 6
+//@   before call handleReadResource#1 assert[C14 same-entry-point-as-the-http-dispatcher] entryOf(request.Method) == 7
+//@   before call handlePing#1 assert[C14 same-entry-point-as-the-http-dispatcher] entryOf(request.Method) == 8
+//@   before call newJSONRPCErrorResponse#2 assert[C14,C03 unserved-method-is-method-not-found] entryOf(request.Method) == 0 && arg1 == ErrCodeMethodNotFound && arg0 == request.ID
+//@   before call newJSONRPCErrorResponse#3 assert[C14,C03 handler-error-is-internal-error-with-the-request-id] err != nil && arg1 == ErrCodeInternal && arg0 == request.ID
+//@   before call newJSONRPCResponse#1 assert[C14,C03,C01 success-envelope-only-without-handler-error-and-with-the-request-id] err == nil && arg0 == request.ID && arg1 == $result
+//@
+//@ func requestHandler.handleRequest
+//@   records lastres ret0
+//@   records lasterr ret1
+//@   modifies *, handled, lastres, lasterr
+//@ func mcpHandler.handleRequest
+//@   records lastres ret0
+//@   records lasterr ret1
+//@
+//@ func httpServerHandler.handlePostRequest
+//@   before call respond#1 assert[C14,C15,C03 handler-error-is-internal-error-with-the-request-id] !isnil(lasterr) && arg4 == asany(errorResp) && errorResp.Error.Code == ErrCodeInternal && errorResp.ID == req.ID
+//@   before call respond#2 assert[C14,C03 error-object-passed-through] isnil(lasterr) && arg4 == lastres
+//@   before call respond#3 assert[C14,C15,C03,C01 success-envelope-only-without-handler-error-and-with-the-request-id] isnil(lasterr) && jsonrpcResponse.ID == req.ID && jsonrpcResponse.Result == lastres && jsonrpcResponse.JSONRPC == "2.0"
+//@   before call respond#4 assert[C14,C15,C03 handler-error-is-internal-error-with-the-request-id] !isnil(lasterr) && arg4 == asany(errorResp) && errorResp.Error.Code == ErrCodeInternal && errorResp.ID == req.ID
+//@   before call respond#5 assert[C14,C03 error-object-passed-through] isnil(lasterr) && arg4 == lastres
+//@   before call respond#6 assert[C14,C15,C03,C01 success-envelope-only-without-handler-error-and-with-the-request-id] isnil(lasterr) && jsonrpcResponse.ID == req.ID && jsonrpcResponse.Result == lastres && jsonrpcResponse.JSONRPC == "2.0"
+//@
+//@ func SSEServer.processRequestAsync
+//@   before call handleRequestError#1 assert[C14,C15,C03 handler-error-is-reported-with-the-request-id] !isnil(lasterr) && arg1 == asany(lasterr) && arg2 == request.ID
+//@   before call sendSuccessResponse#1 assert[C14,C15,C03,C01 success-envelope-only-without-handler-error-and-with-the-request-id] isnil(lasterr) && arg1 == request.ID && arg2 == lastres
+
+// C14 (clients): the library's clients decode a server answer with the same decoder, applied to
+// exactly what their transport returned.
+//@ func Client.ListTools
+//@   before call parseListToolsResultFromJSON#1 assert[C14,C01 the-transports-answer-is-decoded-by-the-shared-decoder] arg0 == rawResp && rawResp != nil
+//@ func Client.CallTool
+//@   before call parseCallToolResult#1 assert[C14,C01 the-transports-answer-is-decoded-by-the-shared-decoder] arg0 == rawResp && rawResp != nil
+//@ func Client.ListPrompts
+//@   before call parseListPromptsResultFromJSON#1 assert[C14,C01 the-transports-answer-is-decoded-by-the-shared-decoder] arg0 == rawResp && rawResp != nil
+//@ func Client.GetPrompt
+//@   before call parseGetPromptResultFromJSON#1 assert[C14,C01 the-transports-answer-is-decoded-by-the-shared-decoder] arg0 == rawResp && rawResp != nil
+//@ func Client.ListResources
+//@   before call parseListResourcesResultFromJSON#1 assert[C14,C01 the-transports-answer-is-decoded-by-the-shared-decoder] arg0 == rawResp && rawResp != nil
+//@ func Client.ReadResource
+//@   before call parseReadResourceResultFromJSON#1 assert[C14,C01 the-transports-answer-is-decoded-by-the-shared-decoder] arg0 == rawResp && rawResp != nil
+//@ func Client.Initialize
+//@   before call parseInitializeResultFromJSON#1 assert[C14,C01 the-transports-answer-is-decoded-by-the-shared-decoder] arg0 == rawResp && rawResp != nil
+//@ func StdioClient.ListTools
+//@   before call parseListToolsResultFromJSON#1 assert[C14,C01 the-transports-answer-is-decoded-by-the-shared-decoder] arg0 == rawResp && rawResp != nil
+//@ func StdioClient.CallTool
+//@   before call parseCallToolResult#1 assert[C14,C01 the-transports-answer-is-decoded-by-the-shared-decoder] arg0 == rawResp && rawResp != nil
+//@ func StdioClient.ListPrompts
+//@   before call parseListPromptsResultFromJSON#1 assert[C14,C01 the-transports-answer-is-decoded-by-the-shared-decoder] arg0 == rawResp && rawResp != nil
+//@ func StdioClient.GetPrompt
+//@   before call parseGetPromptResultFromJSON#1 assert[C14,C01 the-transports-answer-is-decoded-by-the-shared-decoder] arg0 == rawResp && rawResp != nil
+//@ func StdioClient.ListResources
+//@   before call parseListResourcesResultFromJSON#1 assert[C14,C01 the-transports-answer-is-decoded-by-the-shared-decoder] arg0 == rawResp && rawResp != nil
+//@ func StdioClient.ReadResource
+//@   before call parseReadResourceResultFromJSON#1 assert[C14,C01 the-transports-answer-is-decoded-by-the-shared-decoder] arg0 == rawResp && rawResp != nil
+//@ func StdioClient.Initialize
+//@   before call parseInitializeResultFromJSON#1 assert[C14,C01 the-transports-answer-is-decoded-by-the-shared-decoder] arg0 == rawResp && rawResp != nil
